@@ -101,6 +101,11 @@ class Effects:
         if isinstance(node, ast.Name):
             if node.id == "self" and fi.cls is not None and not fi.is_static:
                 return fi.cls
+            if node.id not in types:
+                # a local that is just another name for an attribute chain (x = sub_bus.memory_map) has that attribute's type
+                al = self.local_alias(fi, node.id)
+                if al is not None:
+                    return self.type_of(al, fi, types)
             return types.get(node.id)
         if isinstance(node, ast.Attribute):
             if node.attr in WELL_KNOWN_ATTRS:
@@ -171,7 +176,7 @@ class Effects:
                 elif isinstance(n, ast.With):
                     tg = [i.optional_vars for i in n.items if i.optional_vars is not None]
                 for t in tg:
-                    if any(isinstance(x, ast.Name) and x.id == name for x in ast.walk(t)):
+                    if any(isinstance(x, ast.Name) and x.id == name and isinstance(x.ctx, (ast.Store, ast.Del)) for x in ast.walk(t)):
                         binds.append(n)
         out = None
         if len(binds) == 1 and isinstance(binds[0], ast.Assign) and len(binds[0].targets) == 1 and \
